@@ -59,4 +59,53 @@ theorem gen_ordering_normal (t qA : ℝ) :
   rw [h3, h1, h2]
   exact this
 
+/-! ### the expected band (`expected_pvalues` through the real `distributions`), n_sigma = 2, 1, 0, −1, −2 in that order -/
+
+/-- **normal base distribution**: `CL_{s+b}` = Φ(−N − √q_A), `CL_b` = Φ(−N), `CL_s` their ratio — at every band point, whatever `nan` is -/
+theorem gen_band_normal (Φ : ℝ → ℝ) (nanK sA : ℝ) :
+    Gen.asym_band_normal_clsb0 Φ nanK sA = Φ (-(2 : ℝ) - sA) ∧ Gen.asym_band_normal_clb0 Φ nanK sA = Φ (-(2 : ℝ)) ∧
+    Gen.asym_band_normal_cls0 Φ nanK sA = Φ (-(2 : ℝ) - sA) / Φ (-(2 : ℝ)) ∧
+    Gen.asym_band_normal_clsb1 Φ nanK sA = Φ (-(1 : ℝ) - sA) ∧ Gen.asym_band_normal_clb1 Φ nanK sA = Φ (-(1 : ℝ)) ∧
+    Gen.asym_band_normal_cls1 Φ nanK sA = Φ (-(1 : ℝ) - sA) / Φ (-(1 : ℝ)) ∧
+    Gen.asym_band_normal_clsb2 Φ nanK sA = Φ (-(0 : ℝ) - sA) ∧ Gen.asym_band_normal_clb2 Φ nanK sA = Φ (-(0 : ℝ)) ∧
+    Gen.asym_band_normal_cls2 Φ nanK sA = Φ (-(0 : ℝ) - sA) / Φ (-(0 : ℝ)) ∧
+    Gen.asym_band_normal_clsb3 Φ nanK sA = Φ (-(-1 : ℝ) - sA) ∧ Gen.asym_band_normal_clb3 Φ nanK sA = Φ (-(-1 : ℝ)) ∧
+    Gen.asym_band_normal_cls3 Φ nanK sA = Φ (-(-1 : ℝ) - sA) / Φ (-(-1 : ℝ)) ∧
+    Gen.asym_band_normal_clsb4 Φ nanK sA = Φ (-(-2 : ℝ) - sA) ∧ Gen.asym_band_normal_clb4 Φ nanK sA = Φ (-(-2 : ℝ)) ∧
+    Gen.asym_band_normal_cls4 Φ nanK sA = Φ (-(-2 : ℝ) - sA) / Φ (-(-2 : ℝ)) := by
+  refine ⟨?_, ?_, ?_, ?_, ?_, ?_, ?_, ?_, ?_, ?_, ?_, ?_, ?_, ?_, ?_⟩ <;>
+    simp only [Gen.asym_band_normal_clsb0, Gen.asym_band_normal_clsb1, Gen.asym_band_normal_clsb2, Gen.asym_band_normal_clsb3, Gen.asym_band_normal_clsb4, Gen.asym_band_normal_clb0, Gen.asym_band_normal_clb1, Gen.asym_band_normal_clb2, Gen.asym_band_normal_clb3, Gen.asym_band_normal_clb4, Gen.asym_band_normal_cls0, Gen.asym_band_normal_cls1, Gen.asym_band_normal_cls2, Gen.asym_band_normal_cls3, Gen.asym_band_normal_cls4] <;> norm_num <;> ring_nf
+
+/-- **clipped-normal base distribution**: the expected test-statistic value at N sigma is `max N (−√q_A)`, no band entry is `nan`, and
+`CL_b` = Φ(−max N (−√q_A)), `CL_{s+b}` = Φ(−max N (−√q_A) − √q_A) -/
+theorem gen_band_clipped (Φ : ℝ → ℝ) (nanK sA : ℝ) :
+    Gen.asym_band_clipped_clsb0 Φ nanK sA = Φ (-(max (2 : ℝ) (-sA)) - sA) ∧ Gen.asym_band_clipped_clb0 Φ nanK sA = Φ (-(max (2 : ℝ) (-sA))) ∧
+    Gen.asym_band_clipped_cls0 Φ nanK sA = Φ (-(max (2 : ℝ) (-sA)) - sA) / Φ (-(max (2 : ℝ) (-sA))) ∧
+    Gen.asym_band_clipped_clsb1 Φ nanK sA = Φ (-(max (1 : ℝ) (-sA)) - sA) ∧ Gen.asym_band_clipped_clb1 Φ nanK sA = Φ (-(max (1 : ℝ) (-sA))) ∧
+    Gen.asym_band_clipped_cls1 Φ nanK sA = Φ (-(max (1 : ℝ) (-sA)) - sA) / Φ (-(max (1 : ℝ) (-sA))) ∧
+    Gen.asym_band_clipped_clsb2 Φ nanK sA = Φ (-(max (0 : ℝ) (-sA)) - sA) ∧ Gen.asym_band_clipped_clb2 Φ nanK sA = Φ (-(max (0 : ℝ) (-sA))) ∧
+    Gen.asym_band_clipped_cls2 Φ nanK sA = Φ (-(max (0 : ℝ) (-sA)) - sA) / Φ (-(max (0 : ℝ) (-sA))) ∧
+    Gen.asym_band_clipped_clsb3 Φ nanK sA = Φ (-(max (-1 : ℝ) (-sA)) - sA) ∧ Gen.asym_band_clipped_clb3 Φ nanK sA = Φ (-(max (-1 : ℝ) (-sA))) ∧
+    Gen.asym_band_clipped_cls3 Φ nanK sA = Φ (-(max (-1 : ℝ) (-sA)) - sA) / Φ (-(max (-1 : ℝ) (-sA))) ∧
+    Gen.asym_band_clipped_clsb4 Φ nanK sA = Φ (-(max (-2 : ℝ) (-sA)) - sA) ∧ Gen.asym_band_clipped_clb4 Φ nanK sA = Φ (-(max (-2 : ℝ) (-sA))) ∧
+    Gen.asym_band_clipped_cls4 Φ nanK sA = Φ (-(max (-2 : ℝ) (-sA)) - sA) / Φ (-(max (-2 : ℝ) (-sA))) := by
+  refine ⟨?_, ?_, ?_, ?_, ?_, ?_, ?_, ?_, ?_, ?_, ?_, ?_, ?_, ?_, ?_⟩ <;>
+    simp only [Gen.asym_band_clipped_clsb0, Gen.asym_band_clipped_clsb1, Gen.asym_band_clipped_clsb2, Gen.asym_band_clipped_clsb3, Gen.asym_band_clipped_clsb4, Gen.asym_band_clipped_clb0, Gen.asym_band_clipped_clb1, Gen.asym_band_clipped_clb2, Gen.asym_band_clipped_clb3, Gen.asym_band_clipped_clb4, Gen.asym_band_clipped_cls0, Gen.asym_band_clipped_cls1, Gen.asym_band_clipped_cls2, Gen.asym_band_clipped_cls3, Gen.asym_band_clipped_cls4] <;>
+    norm_num <;> simp only [max_def] <;> split_ifs <;> first
+      | (exfalso; linarith)
+      | rfl
+      | (norm_num <;> ring_nf)
+      | (congr 1 <;> ring)
+
+/-- with the actual normal cdf the clipped band is ordered: `CL_b` never increases along the band order N = 2, 1, 0, −1, −2 reversed, i.e.
+it is non-decreasing from the +2σ entry to the −2σ entry -/
+theorem gen_band_clipped_clb_monotone (nanK sA : ℝ) :
+    Gen.asym_band_clipped_clb0 Mills.Phi nanK sA ≤ Gen.asym_band_clipped_clb1 Mills.Phi nanK sA ∧
+    Gen.asym_band_clipped_clb1 Mills.Phi nanK sA ≤ Gen.asym_band_clipped_clb2 Mills.Phi nanK sA ∧
+    Gen.asym_band_clipped_clb2 Mills.Phi nanK sA ≤ Gen.asym_band_clipped_clb3 Mills.Phi nanK sA ∧
+    Gen.asym_band_clipped_clb3 Mills.Phi nanK sA ≤ Gen.asym_band_clipped_clb4 Mills.Phi nanK sA := by
+  obtain ⟨-, h0, -, -, h1, -, -, h2, -, -, h3, -, -, h4, -⟩ := gen_band_clipped Mills.Phi nanK sA
+  rw [h0, h1, h2, h3, h4]
+  refine ⟨?_, ?_, ?_, ?_⟩ <;> (apply Mills.Phi_mono; apply neg_le_neg; apply max_le_max_right; norm_num)
+
 end Pyhf.Props.C07
